@@ -6,11 +6,13 @@ over strings.  (That `NewStyledString` also restores the link itself — since t
 `Style`; it is checked on the real code by the `rtl` oracle.)
 -/
 import VaxisModel.Lemmas.SgrLinks
+import VaxisModel.Lemmas.SgrLinksFull
 import VaxisModel.Props.C18Bytes
 
 namespace VaxisModel.Props.C18Links
 open VaxisModel VaxisModel.Gen VaxisModel.Model.Sgr VaxisModel.Model.SgrBytes VaxisModel.Model.SgrLinks
 open VaxisModel.Lemmas.Sgr VaxisModel.Lemmas.SgrBytes VaxisModel.Lemmas.SgrLinks VaxisModel.Lemmas.ParserParams
+open VaxisModel.Lemmas.SgrLinksFull
 
 /-- The OSC 8 format string prints `ESC ] 8 ; params ; url ESC \` (the regenerated `Gen.Sequences.osc8`). -/
 theorem osc8_format (l : Link) : osc8Bytes l = 0x1B :: 0x5D :: (osc8Payload l ++ [0x1B, 0x5C]) := osc8Bytes_eq l
@@ -67,5 +69,87 @@ theorem no_links_same (delta : Style → Style → Str) (cs : List (Cell Str)) :
   induction cs with
   | nil => intro s; simp [encodeFromBL, encodeFromB]
   | cons c cs ih => intro s; simp [encodeFromBL, encodeFromB, ih]
+
+/-! ### Round 3: `NewStyledString` restores the hyperlinks themselves (since the `fix:` for F119)
+
+`newStyledStringBL` (`Model/SgrLinks.lean`) is `NewStyledString` with the hyperlink fields: the OSC 8 case reads
+`params;url` with `Cut(seq, ";")`, `ESC [ m` and `case "0"` restore the default's link.  `Encode` re-sends OSC 8 only
+when the URL differs from the previous cell's and sends no parameters for the empty URL, so the cells' links can only
+come back under `LinksRestorable {} cs`: parameters without `;`, none for the empty URL, and equal parameters for
+neighbouring cells with equal URLs.  Without that restriction the statement is false (`…_unrestricted_fails`). -/
+
+/-- **Round trip with hyperlinks at full strength, StyledString.Encode / NewStyledString, over bytes**: graphemes,
+    colours, attributes, underline style and colour **and URL and parameters** of every cell come back. -/
+theorem roundtrip_ss_links_full_bytes (cl : Str → Nat) (legacy : Bool) (cs : List LCell) (hcs : ∀ c ∈ cs, c.cell.st.wf)
+    (hl : CellLinksOK cs) (hr : LinksRestorable {} cs) (ht : TextOKL cl (encodeFromL (ssDelta legacy) {} {} cs)) :
+    newStyledStringBL cl {} {} (ssEncodeBL legacy cs) = .ok cs := by
+  obtain ⟨h1, h2⟩ := encodeFromL_mem (ssDelta legacy) ParamsOk (by rw [sgrResetQ_eq]; intro p hp; simp at hp)
+    (fun p n hn q hq => paramsOk_of_eml q (eml_of_em q (ssDelta_range legacy p n hn q hq))) cs {} {} (ul_of_wf cs hcs) hl
+  rw [(encode_links_bytes_eq legacy cs).2, newStyledStringBL_ltoks cl {} {} _ (goodL_of cl _ ht h1 h2)]
+  exact ss_roundtrip_links_full (ssSeqL {} {}) (ssDelta legacy)
+    (fun s n l hs hn => ss_delta_roundtrip_L C18.ssCfg_covers legacy s n l hs hn) cs {} {} wf_default hcs hr
+
+/-- The restriction in the form the generator uses: the parameters are a function of the URL (nothing for the empty
+    URL) and contain no `;`. -/
+theorem links_restorable_of_fn (pf : Str → Str) (h0 : pf [] = []) (hsemi : ∀ u, ∀ b ∈ pf u, b ≠ 0x3B) :
+    ∀ (cs : List LCell) (l : Link), (∀ c ∈ cs, c.link.params = pf c.link.url) → l.params = pf l.url →
+      LinksRestorable l cs := by
+  intro cs
+  induction cs with
+  | nil => intro _ _ _; trivial
+  | cons c cs ih =>
+    intro l hc hl
+    have h := hc c (List.mem_cons_self ..)
+    refine ⟨⟨?_, ?_⟩, ?_, ih c.link (fun d hd => hc d (List.mem_cons_of_mem _ hd)) h⟩
+    · rw [h]; exact hsemi _
+    · intro hu; rw [h, hu, h0]
+    · intro hu; rw [h, hl, hu]
+
+/-- The link-free model is the projection of the model with links: same graphemes and styles, whatever the string. -/
+theorem newStyledStringBL_cells (cl : Str → Nat) (dflt : Style) (dl : Link) (s : Str) :
+    (match newStyledStringBL cl dflt dl s with | .ok cs => Except.ok (cs.map (·.cell)) | .error e => .error e)
+      = newStyledStringB cl dflt s := nssLoopL_cells cl dflt dl _ _ _ _
+
+/-- The unrestricted statement (no `LinksRestorable`). -/
+def roundtrip_ss_links_unrestricted : Prop :=
+  ∀ (cl : Str → Nat) (legacy : Bool) (cs : List LCell), (∀ c ∈ cs, c.cell.st.wf) → CellLinksOK cs →
+    (∀ c ∈ cs, ∀ b ∈ c.link.params, b ≠ 0x3B) → TextOKL cl (encodeFromL (ssDelta legacy) {} {} cs) →
+    newStyledStringBL cl {} {} (ssEncodeBL legacy cs) = .ok cs
+
+/-- Witness: two neighbouring cells with the same URL `x` and parameters `p` / `q`. -/
+def exChangedParams : List LCell := [⟨⟨[0x61], {}⟩, ⟨[0x78], [0x70]⟩⟩, ⟨⟨[0x62], {}⟩, ⟨[0x78], [0x71]⟩⟩]
+
+/-- **It is false without the restriction**: `Encode` does not re-send OSC 8 when only the parameters change, so the
+    second cell comes back with the first cell's parameters (the observation of `notes/C18.md`, as a theorem). -/
+theorem roundtrip_ss_links_unrestricted_fails : ¬ roundtrip_ss_links_unrestricted := by
+  intro h
+  have h' := h (fun _ => 1) false exChangedParams
+    (by intro c hc; simp [exChangedParams] at hc; rcases hc with rfl | rfl <;> exact wf_default)
+    (by intro c hc; simp [exChangedParams] at hc; rcases hc with rfl | rfl <;> simp)
+    (by intro c hc; simp [exChangedParams] at hc; rcases hc with rfl | rfl <;> simp)
+    (by
+      have : encodeFromL (ssDelta false) {} {} exChangedParams =
+          [.link [0x38, 0x3B, 0x70, 0x3B, 0x78], .tok (.text [0x61]), .tok (.text [0x62]),
+           .link [0x38, 0x3B, 0x3B], .tok (.sgr [])] := by decide
+      rw [this]
+      exact ⟨⟨0x61, [], rfl, by decide⟩, rfl, ⟨0x62, [], rfl, by decide⟩, rfl, trivial⟩)
+  have hobs : (match newStyledStringBL (fun _ => 1) {} {} (ssEncodeBL false exChangedParams) with
+      | .ok r => r.map (·.link.params) | .error _ => []) = [[0x70], [0x70]] := by decide
+  rw [h'] at hobs
+  revert hobs
+  decide
+
+/-! Non-vacuity: links with parameters, a URL containing `;`, a change of URL, a return to no link -/
+
+def exLinked : List LCell :=
+  [⟨⟨[0x61], { attr := 2 }⟩, ⟨[0x68, 0x3B, 0x78], [0x69, 0x64, 0x3D, 0x37]⟩⟩,
+   ⟨⟨[0x62], { attr := 2 }⟩, ⟨[0x68, 0x3B, 0x78], [0x69, 0x64, 0x3D, 0x37]⟩⟩,
+   ⟨⟨[0x63], {}⟩, ⟨[0x79], []⟩⟩, ⟨⟨[0x64], {}⟩, {}⟩]
+
+example : LinksRestorable {} exLinked := by
+  refine ⟨⟨?_, ?_⟩, ?_, ⟨?_, ?_⟩, ?_, ⟨?_, ?_⟩, ?_, ⟨?_, ?_⟩, ?_, trivial⟩ <;> simp [exLinked]
+
+example : (match newStyledStringBL (fun _ => 1) {} {} (ssEncodeBL false exLinked) with
+    | .ok r => decide (r = exLinked) | .error _ => false) = true := by decide
 
 end VaxisModel.Props.C18Links
